@@ -1193,10 +1193,13 @@ class BaseGaussianState(BaseState):
 
             r = np.arccosh(tr / 2) / 2
 
-            if cov[0, 1] == 0.0:
+            if cov[0, 1] == 0.0 and cov[0, 0] <= cov[1, 1]:
                 phi = 0
             else:
-                phi = -np.arcsin(2 * cov[0, 1] / np.sqrt((tr - 2) * (tr + 2)))
+                # cov = [[cosh(2r) - sinh(2r) cos(phi), -sinh(2r) sin(phi)],
+                #        [-sinh(2r) sin(phi), cosh(2r) + sinh(2r) cos(phi)]]:
+                # the sine alone does not determine the quadrant of phi
+                phi = np.arctan2(-cov[0, 1], (cov[1, 1] - cov[0, 0]) / 2)
 
             res.append((r, phi))
 
